@@ -30,7 +30,7 @@ def run_one(m, tier='quick', shards=None):
         open(fp, 'w').write(s)
         res = []
         for prop in props:
-            env = dict(os.environ, VERIF_REPO=dst, VERIF_MUTANT='1')
+            env = dict(os.environ, VERIF_REPO=dst, VERIF_OUT=os.path.join(d, 'out'))
             cmd = [os.path.join(ROOT, 'check'), prop, '--tier', tier] + (['--shards', str(shards)] if shards else [])
             r = subprocess.run(cmd, env=env, capture_output=True, text=True)
             line = next((l for l in r.stdout.splitlines() if l.startswith('  monitor=')), '')
@@ -43,24 +43,12 @@ def run_one(m, tier='quick', shards=None):
 def main():
     sel = sys.argv[1:]
     ms = [m for m in MUTANTS if not sel or any(m[0].startswith(s) for s in sel)]
-    # evidence/replay files written by mutant runs are not evidence: keep the originals
-    keep = tempfile.mkdtemp(prefix='vf-keep-', dir=os.environ.get('VERIF_SCRATCH', '/var/tmp'))
-    for sub in ('evidence', 'replays'):
-        if os.path.isdir(os.path.join(ROOT, sub)):
-            shutil.copytree(os.path.join(ROOT, sub), os.path.join(keep, sub))
-    try:
-        missed = 0
-        for m in ms:
-            name, res, _ = run_one(m, shards=int(os.environ.get('SELFTEST_SHARDS', '16')))
-            print(f'{name:38s} {res}', flush=True)
-            missed += 'MISSED' in res or 'STALE' in res
-        print(f'{len(ms)} mutants, {missed} not caught')
-    finally:
-        for sub in ('evidence', 'replays'):
-            shutil.rmtree(os.path.join(ROOT, sub), ignore_errors=True)
-            if os.path.isdir(os.path.join(keep, sub)):
-                shutil.copytree(os.path.join(keep, sub), os.path.join(ROOT, sub))
-        shutil.rmtree(keep, ignore_errors=True)
+    missed = 0
+    for m in ms:
+        name, res, _ = run_one(m, shards=int(os.environ.get('SELFTEST_SHARDS', '16')))
+        print(f'{name:38s} {res}', flush=True)
+        missed += 'MISSED' in res or 'STALE' in res
+    print(f'{len(ms)} mutants, {missed} not caught')
     return 1 if missed else 0
 
 
